@@ -57,6 +57,11 @@ fn main() {
             image::run(seed, cases, &mut sink, &outdir, only)
         }
         "image-leak" => image::scenario_leak(&mut sink, &outdir),
+        "image-cycles" => {
+            let cycles: usize = arg(&args, "--cycles").and_then(|s| s.parse().ok()).unwrap_or(10);
+            let nkeys: usize = arg(&args, "--keys").and_then(|s| s.parse().ok()).unwrap_or(300);
+            image::scenario_cycles(&mut sink, &outdir, cycles, nkeys)
+        }
         _ => {
             eprintln!("usage: vharness <core-pp|core-mp> --seed S --cases N --out DIR");
             std::process::exit(2);
